@@ -231,6 +231,24 @@ Section C09.
     Proof. exact (FixedPointProofs.fp_least_rel L S eqb eqb_spec join_from push_to trans join cmp succ pred entry from_ok to_ok converse
                     good good_trans good_join le_trans join_lub trans_mono). Qed.
 
+    (* finite height required on good states only (clients whose state type is unbounded) *)
+    Theorem fp_terminates_rel : forall (rank : S -> nat) h,
+      (forall s, good s -> rank s <= h) -> (forall a b, good a -> good b -> cmp a b = Some Gt -> rank b < rank a) ->
+      forall U, NoDup U -> (forall l, reach l -> In l U) ->
+      forall d, (forall l, reach l -> length (succ l) <= d) ->
+      exists n o, n <= 1 + d * (length U * Datatypes.S h) /\ term false [] [entry] n o.
+    Proof. exact (FixedPointProofs.fp_terminates_rel L S eqb eqb_spec join_from push_to trans join cmp succ pred entry from_ok to_ok converse
+                    good good_trans good_join). Qed.
+
+    Theorem fp_budget_suffices_rel : forall (rank : S -> nat) h,
+      (forall s, good s -> rank s <= h) -> (forall a b, good a -> good b -> cmp a b = Some Gt -> rank b < rank a) ->
+      forall U, NoDup U -> (forall l, reach l -> In l U) ->
+      forall d, (forall l, reach l -> length (succ l) <= d) ->
+      forall max, 1 + d * (length U * Datatypes.S h) <= Datatypes.S max ->
+      exists n o, term false [] [entry] n o /\ run (Datatypes.S (Datatypes.S max)) false max 0 [] [entry] = o.
+    Proof. exact (FixedPointProofs.fp_budget_suffices_rel L S eqb eqb_spec join_from push_to trans join cmp succ pred entry from_ok to_ok converse
+                    good good_trans good_join). Qed.
+
     Hypothesis cmp_refl : forall s, cmp s s = Some Eq.
     Hypothesis cmp_ge : forall a b, good a -> good b -> le b a -> cmp a b = Some Gt \/ cmp a b = Some Eq.
     Hypothesis join_total : forall a b, good a -> good b -> exists j, join a b = Ok j.
@@ -276,6 +294,8 @@ Print Assumptions fp_good.
 Print Assumptions fp_least_rel.
 Print Assumptions fp_monotone_no_error_rel.
 Print Assumptions fp_complete_rel.
+Print Assumptions fp_terminates_rel.
+Print Assumptions fp_budget_suffices_rel.
 
 (* the hypotheses are jointly satisfiable: entry on a cycle, a self-loop, counter lattice of height 3 --
    every hypothesis of fp_complete (hence of all theorems above) is discharged for this instance *)
